@@ -2,6 +2,9 @@ import KM.Props.C14Go
 import KM.Gen.GoVip
 import KM.Gen.GoBoot
 import KM.Gen.GoWebauthn
+import KM.Props.C04Go
+import KM.Props.C06Go
+import KM.Gen.GoCookieUp
 /-! # C05 — when `validateUserTOTP` says yes, on the TRANSLATED source (go2lean); see `KM/Props/C14Go.lean` -/
 namespace KM.Totp
 open KM.Go KM.GoTypes
@@ -411,3 +414,79 @@ theorem c05_go_webauthn_save_not_from_cache (ext : WaExt) (user : List Char) (au
       simp [hc] at h ⊢ <;> (try split at h) <;> simp_all
 
 end KM.WebauthnGo
+
+/-! ## `updateAuthCookieAuthlevel`, the whole function (`KM/Gen/GoCookieUp.lean`) -/
+namespace KM.CookieUpGo
+open KM.GoTypes KM.Go KM.CheckAuthGo
+
+/-- **closed form of the translated function**: the LAST `auth_cookie` of the request is the one re-signed -/
+theorem cookie_up_eq (ext : CookieUpExt) (cookies : List Cookie) (user : List Char) (lvl : Nat) :
+    KM.Gen.GoCookieUp.updateAuthCookieAuthlevel ext cookies user lvl =
+      match lastAuth cookies with
+      | none => (([], some "cannot find authCookie".toList), [])
+      | some c =>
+        match ext.upgradeJWT c.value user lvl with
+        | (_, some e) => (([], some e), [])
+        | (v, none) => ((c.value, none), [.setCookie v]) := by
+  obtain ⟨up⟩ := ext
+  unfold KM.Gen.GoCookieUp.updateAuthCookieAuthlevel
+  dsimp only
+  rw [cookie_loop]
+  generalize hl' : lastNamed "auth_cookie".toList cookies none = la
+  have hl : lastAuth cookies = la := hl'
+  rw [hl]
+  cases la with
+  | none => rfl
+  | some c =>
+    simp only [Option.isNone_some, Bool.false_eq_true, if_false, cookieValue]
+    have key : ∀ r : List Char × Option Err,
+        (if r.2.isSome = true then ((([] : List Char), r.2), ([] : List CookieUpEffect))
+          else ((c.value, none), [] ++ [CookieUpEffect.setCookie r.1])) =
+        (match r with
+          | (_, some e) => (([], some e), [])
+          | (v, none) => ((c.value, none), [CookieUpEffect.setCookie v])) := by
+      intro r
+      obtain ⟨v, e⟩ := r
+      cases e <;> simp
+    exact key _
+
+/-- **the cookie that is set is a re-signing of the request's own auth cookie for the named user** (C05): a cookie is
+set only when the request carries an `auth_cookie`, `updateAuthJWTWithNewAuthLevel` accepted the LAST one for
+`username` at the new level, and the value set is exactly what that call returned; nothing else is ever set. -/
+theorem c05_go_cookie_upgrade (ext : CookieUpExt) (cookies : List Cookie) (user : List Char) (lvl : Nat) (v : List Char)
+    (h : CookieUpEffect.setCookie v ∈ (KM.Gen.GoCookieUp.updateAuthCookieAuthlevel ext cookies user lvl).2) :
+    ∃ c, lastAuth cookies = some c ∧ ext.upgradeJWT c.value user lvl = (v, none) ∧
+      KM.Gen.GoCookieUp.updateAuthCookieAuthlevel ext cookies user lvl = ((c.value, none), [.setCookie v]) := by
+  rw [cookie_up_eq] at h ⊢
+  cases hl : lastAuth cookies with
+  | none => rw [hl] at h; simp at h
+  | some c =>
+    rw [hl] at h
+    simp only at h ⊢
+    rcases hu : ext.upgradeJWT c.value user lvl with ⟨v', _ | e⟩
+    · rw [hu] at h
+      simp only [List.mem_singleton, CookieUpEffect.setCookie.injEq] at h
+      subst h
+      exact ⟨c, rfl, hu, rfl⟩
+    · rw [hu] at h; simp at h
+
+/-- **composed with the translated `updateAuthJWTWithNewAuthLevel`** (`c04_go_upgrade_accept`): whenever the real pair
+of functions sets a cookie, the request's last auth cookie parsed under the deployment's algorithm list, passed the
+signature check, is a valid SESSION token of this issuer whose SUBJECT IS `username`, and the value set is the
+re-signing of those same claims with only the level replaced. -/
+theorem c05_go_cookie_upgrade_end_to_end (jext : JwtExt) (now : Int) (cookies : List Cookie) (user : List Char)
+    (lvl : Nat) (v : List Char)
+    (h : CookieUpEffect.setCookie v ∈ (KM.Gen.GoCookieUp.updateAuthCookieAuthlevel
+      ⟨fun tok u l => KM.Gen.GoJwt.updateAuthJWTWithNewAuthLevel jext now tok u (l : Int)⟩ cookies user lvl).2) :
+    ∃ c sa algos sg t cl, lastAuth cookies = some c ∧ jext.signerAlgo = (sa, none) ∧
+      jext.verifierList = (algos, none) ∧ jext.newSigner = (sg, none) ∧
+      jext.parseSigned c.value algos = (t, none) ∧ jext.authClaims t = (cl, none) ∧
+      KM.TokenGo.valuesOK cl.Issuer cl.TokenType cl.Audience cl.NotBefore jext.issuer "keymaster_auth".toList now ∧
+      cl.Subject = user ∧ jext.resign { cl with AuthType := (lvl : Int) } = (v, none) := by
+  obtain ⟨c, hl, hu, _⟩ := c05_go_cookie_upgrade _ cookies user lvl v h
+  simp only at hu
+  obtain ⟨sa, algos, sg, t, cl, h1, h2, h3, h4, h5, h6, h7, h8⟩ :=
+    (KM.TokenGo.c04_go_upgrade_accept jext now c.value user (lvl : Int) v).mp hu
+  exact ⟨c, sa, algos, sg, t, cl, hl, h1, h2, h3, h4, h5, h6, h7, h8⟩
+
+end KM.CookieUpGo
